@@ -93,13 +93,14 @@ def subseqBy {α β} (m : α → β → Bool) : List α → List β → Bool
 
 /-- nesting depth of a trace line and the marker in its gutter.  A line of depth `d` starts with a
     space, `d` bars and the tick (`- ` at depth 0, `| ` deeper); on the first line of a branch the
-    tick's bar is replaced by `\\`, on the last line of a failed branch by `X`. -/
+    tick's bar is replaced by `\\`, on the last line of a failed branch by `X`, on the `Spec:`
+    line of a branching spec by `+`. -/
 def gutter (line : Str) : Nat × Option Char :=
   match line with
   | ' ' :: rest =>
     let bars := rest.takeWhile (· == '|')
     let mark := (rest.drop bars.length).head?
-    if mark == some '\\' || mark == some 'X' then (bars.length, mark)
+    if mark == some '\\' || mark == some 'X' || mark == some '+' || mark == some '-' then (bars.length, mark)
     else (bars.length - 1, mark)
   | _ => (0, none)
 
